@@ -29,10 +29,16 @@ import (
 	"verif.local/simcheck/rewriter"
 )
 
-const (
-	verifDir = "/verif"
-	goTool   = "go1.26.8"
-)
+const goTool = "go1.26.8"
+
+// verifDir is /verif; a background run from a snapshot of /verif (vp run) sets VERIF_DIR so that it
+// builds from and writes into its own copy.
+var verifDir = func() string {
+	if d := os.Getenv("VERIF_DIR"); d != "" {
+		return d
+	}
+	return "/verif"
+}()
 
 // repoDir is /repo; SIMCHECK_REPO points the checks at a scratch worktree during sensitivity
 // experiments (the registered commands never set it).
